@@ -379,12 +379,23 @@ def expand(bodies, d):
     return bld.d, bld.done
 
 
-def xbody(facts, name):
-    """`facts.body(name)` with iterator folds and closure calls expanded (cached on the Facts object)."""
+def xbody(facts, name, keep=()):
+    """`facts.body(name)` with iterator folds and closure calls expanded (cached on the Facts object).
+    keep: crate-local helper functions that must stay calls (not inlined by the vocabulary inliner),
+    e.g. a renamed primitive that a rule treats as an uninterpreted oracle."""
+    from .mir import Body
     cache = facts.__dict__.setdefault("_xbodies", {})
-    if name not in cache:
-        from .mir import Body
-        b = facts.body(name)
+    keep = frozenset(k for k in keep if k and facts.known is not None and k not in facts.known)
+    key = (name, keep) if keep else name
+    if key not in cache:
+        if keep:
+            from .inline import inline_body
+            if name not in facts.d["bodies"]:
+                return facts.body(name)     # raises AnchorMissing
+            d, _ = inline_body(facts.d["bodies"], facts.d["bodies"][name], lambda c: facts._is_helper(c) and c not in keep)
+            b = Body(facts, d)
+        else:
+            b = facts.body(name)
         d2, done = expand(facts.d["bodies"], b.d)
-        cache[name] = b if not done else Body(facts, d2)
-    return cache[name]
+        cache[key] = b if not done else Body(facts, d2)
+    return cache[key]
